@@ -90,7 +90,11 @@ def run_real(gene, sols, cov, sample="S1"):
     decomp = []
     for i, s in enumerate(sols):
         buf = io.StringIO()
-        write_decomposition(sample, gene, cov, i + 1, s, buf)
+        try:
+            write_decomposition(sample, gene, cov, i + 1, s, buf)
+        except Exception as e:  # a writer that cannot write a solution the stages can report
+            decomp.append([f"RAISED {type(e).__name__}: {e}"])
+            continue
         decomp.append(buf.getvalue().split("\n")[:-1])
     buf = io.StringIO()
     vcf_error = None
@@ -249,6 +253,11 @@ def tie(ctx):
     samples = []
     for (c, gene, sd, sols, cov, real), o in zip(runs, outs):
         fam["decomposition"]["cases"] += 1
+        raised = [x[0] for x in real["decomp"] if x and x[0].startswith("RAISED ")]
+        if raised:
+            fam["decomposition"]["disagreements"].append({"why": f"write_decomposition raises {raised[0][7:]}", "input": c})
+            violations.append({"why": f"write_decomposition raises {raised[0][7:]} for solutions with {[len(x) for x in sd]} copies", "input": c, "signature": "c12:writer_raises"})
+            continue
         if o["decomp"] != real["decomp"]:
             fam["decomposition"]["disagreements"].append({"why": f"write_decomposition text differs from the model: {real['decomp'][0][:2]} vs {o['decomp'][0][:2]}", "input": c})
         fam["vcf_records"]["cases"] += 1
